@@ -1125,8 +1125,28 @@ def _r11(ctx, pkg, regs, protos, consts, universal):
     mclasses = {c.name: c for c in mod.body if isinstance(c, ast.ClassDef)}
     # functions reachable from _assign_rates inside the module (methods through self / cls / the class name, module functions, the
     # methods of module classes it instantiates): more scope only means more text to account for
+    import copy
+    from ..normalize import _Subst, const_getattr
+
+    def special(g, call, method):
+        """the callee as this call site sees it: parameters that receive a literal replaced by it (`getattr(reac, bound)` with
+        bound = "temp_min" is `reac.temp_min`), so that the text and the conditions inside are read with the names they have here"""
+        ps = [a.arg for a in g.args.args]
+        if method and not any(ast.unparse(d) == "staticmethod" for d in g.decorator_list):
+            ps = ps[1:]
+        lit = {p_: a for p_, a in zip(ps, call.args) if isinstance(a, ast.Constant)}
+        lit.update({k.arg: k.value for k in call.keywords if k.arg in ps and isinstance(k.value, ast.Constant)})
+        stored = {n.id for n in ast.walk(g) if isinstance(n, ast.Name) and isinstance(n.ctx, (ast.Store, ast.Del))}
+        lit = {k: v for k, v in lit.items() if k not in stored}
+        if not lit:
+            return g
+        g2 = copy.deepcopy(g)
+        g2.body = [_Subst(dict(lit)).visit(st) for st in g2.body]
+        handed_on.update(id(v) for v in lit.values())
+        return const_getattr(g2)
+    handed_on = set()          # literal arguments accounted for inside the specialised callee
     scope, todo = [], [root]
-    while todo:
+    while todo and len(scope) < 40:
         f = todo.pop()
         if any(f is g for g in scope):
             continue
@@ -1138,9 +1158,9 @@ def _r11(ctx, pkg, regs, protos, consts, universal):
             if isinstance(fn_, ast.Attribute) and isinstance(fn_.value, ast.Name) and fn_.value.id in ("self", "cls", "TemplateLoader"):
                 g = pkg.resolve("TemplateLoader", fn_.attr)[1]
                 if g is not None:
-                    todo.append(g)
+                    todo.append(special(g, c, True))
             elif isinstance(fn_, ast.Name) and (TLOADER, fn_.id) in pkg.functions:
-                todo.append(pkg.functions[(TLOADER, fn_.id)])
+                todo.append(special(pkg.functions[(TLOADER, fn_.id)], c, False))
             elif isinstance(fn_, ast.Name) and fn_.id in mclasses:
                 todo += [m for m in mclasses[fn_.id].body if isinstance(m, ast.FunctionDef)]
     # what a thermal process is: constants / constructor parameters its __init__ stores, and the instances of the package
@@ -1215,7 +1235,7 @@ def _r11(ctx, pkg, regs, protos, consts, universal):
             if not (isinstance(node, ast.Constant) and isinstance(node.value, str)):
                 continue
             ids = [w for w in re.findall(r"[A-Za-z_]\w*", node.value) if w not in _C_WORDS]
-            if not ids:
+            if not ids or id(node) in handed_on:
                 continue
             # where the text stands: not a docstring / message, and under which conditions
             guards, x, skip = [], node, False
